@@ -42,6 +42,8 @@ def mutations(T, el):
 def mutate(T, el, op, attr_info):
     if op[0] == 'add':
         return call(el.add_child, impl.child(op[1]))
+    if op[0] in ('remove0', 'child-attr') and not el.get_children(ordered=False):
+        return None
     if op[0] == 'remove0':
         return call(el.remove, el.get_children(ordered=False)[0])
     if op[0] == 'child-attr':
@@ -173,6 +175,21 @@ def work_attr(names):
             recipes += [('kw', [('kw', a_, v1)]), ('dot', [('dot', a_, v1)]), ('kw-overwrite', [('kw', a_, v1), ('dot', a_, v2)]),
                         ('kw-removed', [('kw', a_, v1), ('dot', a_, None)]), ('dot-removed', [('dot', a_, v1), ('dot', a_, None)]),
                         ('dot-dot', [('dot', a_, v1), ('dot', a_, v2)])]
+        if kind == 'complex' and R.content_model(t) is not None:
+            sig = explore.reduced_alphabet(t)[:2]
+
+            def make_toggled():
+                e = cls(val, xsd_check=True, **base)
+                e.xsd_check = False
+                for a in sig:
+                    e.add_child(impl.child(a))
+                e.xsd_check = True
+                return e
+
+            def addt(k, key, **d):
+                vio.append({'scope': name, 'kind': k, 'key': key, **d})
+            if call(make_toggled).ok:
+                n += judge_copy(None, name, make_toggled, addt, [name, 'children-added-while-unchecked', True, False])
         for check in (True, False):
             for rname, steps in recipes:
                 for nested in (False, True):
